@@ -18,7 +18,9 @@ from mc.runner import Result, horizon, Horizon
 ID = "C17"
 TITLE = "learn conserves samples and keeps the best model; prune only discards"
 RULE = ("learn: every training arrangement of 3 of 4 (thorough also 4 of 5) distinct 1-D points x "
-        "3 labelings x 3 validation sets x n_iterations 1..3; EVERY sequence of answers of the "
+        "3 labelings x 3 validation sets x n_iterations 1..3, plus configurations in which the "
+        "validation accuracy itself is a scripted environment answer (every sequence over {0, 0.5, 1} "
+        "for 1..4 iterations, so non-monotone accuracy histories occur); EVERY sequence of answers of the "
         "intercepted uniform draw (numpy.random.uniform/randint/random/choice are all owned by the "
         "chooser) is explored by prefix replay; per execution: no exception, multiset of (features, "
         "label) over both sets and both sizes unchanged, final model = training set of a recorded "
@@ -42,10 +44,13 @@ LABS4 = [[0, 0, 1, 1], [0, 1, 0, 1], [0, 1, 1, 0]]
 
 def bounds(tier):
     return {"learn": "24 arrangements x 3 labelings x 3 validation sets x iterations 1..3 (648 configs), "
-            "all answer sequences" + ("; + 120 x 3 x 3 x {1,2} configs with 4 training rows (cap 3000 "
+            "all answer sequences; scripted accuracy: %d arrangements x 3 labelings x %d accuracy "
+            "sequences x all RNG answers" % ((6, 39) if tier == "quick" else (24, 120)) + ("; + 120 x 3 x 3 x {1,2} configs with 4 training rows (cap 3000 "
                                       "executions each)" if tier == "thorough" else ""),
             "marking": ["WO(4): 3+1 x L(3)", "G(5,2): 4+1 x L(4)", "P(3,{0,1,2}^2) x 26-query batch"],
-            "prune": "P(4,{0..3} distinct arrangements) x validation pairs x n_iterations 0..2"}
+            "prune": "P(4,{0..3} distinct arrangements) x validation pairs x n_iterations 0..2; all 3024 "
+            "arrangements of 4 distinct points of {0,1,2}^2 x 7 labelings x 6 validation sets x n_iterations %s"
+            % ("1" if tier == "quick" else "1..2")}
 
 
 def plan(tier, seed):
@@ -53,6 +58,9 @@ def plan(tier, seed):
     perms = list(itertools.permutations(range(4), 3))
     for pi in range(len(perms)):
         shards.append(("learn", 3, pi))
+    for pi in (range(0, 24, 4) if tier == "quick" else range(24)):
+        for li in range(3):
+            shards.append(("learn", "scripted", pi, li, 3 if tier == "quick" else 4))
     if tier == "thorough":
         for pi in range(120):
             shards.append(("learn", 4, pi))
@@ -64,6 +72,9 @@ def plan(tier, seed):
         shards.append(("mark", "feat", "2d", 3, "euclidean", a, b))
     for pi in range(24):
         shards.append(("prune", pi))
+    for a, b in E.chunks(3024, 126):
+        shards.append(("prune2d", a, b, (1,) if tier == "quick" else (1, 2)))
+    shards.sort(key=lambda sh: 0 if sh[1] == "scripted" else 1)
     return shards
 
 
@@ -136,8 +147,15 @@ def learn_once(cfg, ch):
         rec.append({"rows": rows(X, Y), "acc": None})
         return orig_fit(self, X, Y, I)
 
+    script = cfg.get("acc_script")
+    n_acc = [0]
+
     def acc(labels, preds):
         a = orig_acc(labels, preds)
+        if script is not None:
+            # the validation accuracy is an environment answer served from the script
+            a = float(script[n_acc[0]]) if n_acc[0] < len(script) else float(script[-1])
+            n_acc[0] += 1
         if rec:
             rec[-1]["acc"] = float(a)
         return a
@@ -214,9 +232,26 @@ def learn_configs(n_train, pi, seed):
                        "Xv": [v * sc for v in xv], "Yv": list(yv), "iters": iters}
 
 
+def scripted_configs(pi, seed, li=None, max_iters=4):
+    """every accuracy sequence over {0, 0.5, 1} of length n_iterations (1..4) on configurations
+    whose validation samples are misclassified (so that swaps really change the training set)"""
+    base = [c for c in learn_configs(3, pi, seed) if c["iters"] == 1 and c["Yv"] == [1, 0]]
+    if li is not None:
+        base = base[li:li + 1]
+    for cfg in base:
+        for iters in range(1, max_iters + 1):
+            for script in itertools.product([0.0, 0.5, 1.0], repeat=iters):
+                c2 = dict(cfg)
+                c2["iters"] = iters
+                c2["acc_script"] = list(script)
+                yield c2
+
+
 def shard_learn(shard, seed, res):
-    _, n_train, pi = shard
-    for cfg in learn_configs(n_train, pi, seed):
+    _, n_train, pi = shard[:3]
+    cfgs = scripted_configs(pi, seed, shard[3], shard[4]) if n_train == "scripted" \
+        else learn_configs(n_train, pi, seed)
+    for cfg in cfgs:
         found = []
 
         def execute(ch):
@@ -229,7 +264,7 @@ def shard_learn(shard, seed, res):
             return r
 
         try:
-            out = explore(execute, max_exec=None if n_train == 3 else 3000)
+            out = explore(execute, max_exec=None if n_train in (3, "scripted") else 3000)
         except Horizon as hz:
             out = {"executions": 1, "choice_points": 0, "violations": [([], (str(hz), "no termination"))],
                    "complete": False, "max_depth": 0, "pruned_by_deviation_bound": 0}
@@ -351,6 +386,25 @@ def mark_case(prog, res=None):
 # --------------------------------------------------------------------------
 # prune
 # --------------------------------------------------------------------------
+PRUNE_VALS_2D = [((3.0, 1.0), (0.0, 1.0)), ((1.0, 3.0), (1.0, 0.0)), ((2.5, 2.5), (0.5, 0.5))]
+
+
+def prune_programs_2d(a, b, seed, iters_list):
+    """every arrangement of 4 distinct points of {0,1,2}^2 (heavy distance ties: samples get
+    relabelled by an equal-cost prototype of the other class) x two-class labelings x validation sets"""
+    sc = [1.0, 2.0, 0.5, 3.0][seed % 4] if seed else 1.0
+    pts = [(float(x), float(y)) for x in range(3) for y in range(3)]
+    arrs = list(itertools.permutations(range(9), 4))[a:b]
+    for arr in arrs:
+        X = [[pts[i][0] * sc, pts[i][1] * sc] for i in arr]
+        for lab in E.labelings(4, max_classes=2):
+            for xv in PRUNE_VALS_2D:
+                for yv in ([0, 1], [1, 0]):
+                    for iters in iters_list:
+                        yield {"part": "prune", "Xt": X, "Yt": list(lab), "dim": 2,
+                               "Xv": [[v[0] * sc, v[1] * sc] for v in xv], "Yv": yv, "iters": iters}
+
+
 def prune_programs(pi, seed):
     sc = [1.0, 2.0, 0.5, 3.0][seed % 4] if seed else 1.0
     pts = [0.0, 1.0, 2.0, 3.0, 6.0, 7.0]
@@ -365,9 +419,10 @@ def prune_programs(pi, seed):
 
 def prune_case(prog, res=None):
     from opfython.models import SupervisedOPF
-    Xt = np.array(prog["Xt"], dtype=float).reshape(-1, 1)
+    dim = int(prog.get("dim", 1))
+    Xt = np.array(prog["Xt"], dtype=float).reshape(-1, dim)
     Yt = np.array(prog["Yt"], dtype=int)
-    Xv = np.array(prog["Xv"], dtype=float).reshape(-1, 1)
+    Xv = np.array(prog["Xv"], dtype=float).reshape(-1, dim)
     Yv = np.array(prog["Yv"], dtype=int)
     orig_rows = rows(Xt, Yt)
     rec = []
@@ -454,7 +509,9 @@ def run(shard, seed):
                     break
         return res
     first = True
-    for prog in prune_programs(shard[1], seed):
+    progs = prune_programs(shard[1], seed) if shard[0] == "prune" else \
+        prune_programs_2d(shard[1], shard[2], seed, shard[3])
+    for prog in progs:
         try:
             with horizon(30.0):
                 v = prune_case(prog, res)
